@@ -671,12 +671,14 @@ WdRun(s, e, gr, gs) ==
          WdRun([s EXCEPT !.outClosed[e] = TRUE, !.task[e].ph = IF t.drain THEN "flush" ELSE "close"], e, gr, gs)
     [] t.ph = "flush" ->
          IF s.outq[e] = <<>> THEN WdRun([s EXCEPT !.task[e].ph = "close"], e, gr, gs)
-         ELSE IF s.sink[e] # "open" THEN WdRun([s EXCEPT !.task[e].ph = "close"], e, gr, gs)   \* error: stop flushing
+         ELSE IF s.sink[e] \in {"cut", "closed"} THEN WdRun([s EXCEPT !.task[e].ph = "close"], e, gr, gs)   \* error: stop flushing
          ELSE IF gs = 0 THEN s
+         ELSE IF s.sink[e] = "softcut"      \* poll_ready succeeds, start_send fails: the message is lost, flushing stops
+              THEN WdRun([s EXCEPT !.outq[e] = Tail(@), !.task[e].ph = "close"], e, gr, 0)
          ELSE WdRun(SendOne(s, e), e, gr, 0)
     [] t.ph = "close" ->
          (* the peer is waited for only after a graceful end and if our own Close could be sent *)
-         WdRun([CloseSink(s, e) EXCEPT !.task[e].ph = IF t.res = "ok" /\ s.sink[e] # "cut" THEN "drain" ELSE "drain0"],
+         WdRun([CloseSink(s, e) EXCEPT !.task[e].ph = IF t.res = "ok" /\ s.sink[e] \notin {"cut", "softcut"} THEN "drain" ELSE "drain0"],
                e, gr, gs)
     [] t.ph \in {"drain", "drain0"} ->
          IF s.src[e] = "ended" THEN Finalize(s, e)
@@ -703,8 +705,12 @@ TaskPoll(s, e, gr, gs) ==
               THEN RecvOne(a1, e) ELSE a1
         (* 2. process_message_to_send_task *)
         a3 == IF a2.task[e].ph # "run" THEN a2
-              ELSE IF a2.sink[e] # "open" THEN BeginWd(a2, e, FALSE, "ws")
-              ELSE IF gs = 1 /\ a2.outq[e] # <<>> THEN SendOne(a2, e) ELSE a2
+              ELSE IF a2.sink[e] \in {"cut", "closed"} THEN BeginWd(a2, e, FALSE, "ws")
+              ELSE IF gs = 1 /\ a2.outq[e] # <<>>
+                   THEN (IF a2.sink[e] = "softcut"     \* start_send fails after the message was taken
+                         THEN BeginWd([a2 EXCEPT !.outq[e] = Tail(@)], e, FALSE, "ws")
+                         ELSE SendOne(a2, e))
+              ELSE a2
         (* 4. process_dropped_flows_task *)
         a4 == DropsAll(a3, e)
     IN {a4}
@@ -726,6 +732,10 @@ EndSrc(s, e) ==
 CutSink(s, e) ==
   IF s.sink[e] # "open" THEN {}
   ELSE {Obs([Unhealthy(s) EXCEPT !.sink[e] = "cut"], NoObs)}
+(* the same, but only noticed when something is actually sent or the sink is closed (poll_ready succeeds) *)
+SoftCutSink(s, e) ==
+  IF s.sink[e] # "open" THEN {}
+  ELSE {Obs([Unhealthy(s) EXCEPT !.sink[e] = "softcut"], NoObs)}
 (* an arbitrary message appears on the link towards e (adversary / raw peer) *)
 Inject(s, e, m) == {Obs([Unhealthy(s) EXCEPT !.wire[Peer(e)] = Append(@, m), !.advn = @ + 1], NoObs)}
 
